@@ -584,6 +584,10 @@ class Step(Contract):
         reb_raised = any(t == ("raise", "Broker.rebalance", "EndOfEpisodeError") for t in I.trace)
         if reb_raised:
             out.append(Cl("done_on_insolvent_decision", done1))
+        # the invariant assumed at entry holds again at exit (so it holds at every step of an episode once reset establishes it)
+        for x in env_invariant(I, c.self):
+            x.name = "invariant_preserved::" + x.name
+            out.append(x)
         return out
 
 
